@@ -277,6 +277,59 @@ fn fixed_string_program(rng: &mut Rng) -> Prog {
     Prog { src, expected_stdout: expected, expected_end: End::Ok, key: "fixed-string-program".into() }
 }
 
+/// STRING * n targets assigned from sources of every kind: a fixed-length variable, field or
+/// element of ANOTHER length, an ordinary string variable, a concatenation
+fn fixed_string_sources_program(rng: &mut Rng) -> Prog {
+    let n = rng.range(1, 7) as usize;
+    let mut m = rng.range(1, 7) as usize;
+    if rng.chance(1, 4) {
+        m = n;
+    }
+    let texts = ["", "a", "abc", "hello world", "xy", "q r"];
+    let fixk = |s: &str, k: usize| -> String {
+        let mut t: String = s.chars().take(k).collect();
+        while t.len() < k {
+            t.push(' ');
+        }
+        t
+    };
+    let mut src = String::new();
+    let mut expected = String::new();
+    src.push_str(&format!("TYPE RecN\nTag AS INTEGER\nNm AS STRING * {}\nEND TYPE\nTYPE RecM\nNm AS STRING * {}\nEND TYPE\n", n, m));
+    src.push_str(&format!("DIM F AS STRING * {}\nDIM R AS RecN\nDIM Arr(1 TO 2) AS STRING * {}\n", n, n));
+    src.push_str(&format!("DIM S AS STRING * {}\nDIM Q AS RecM\nDIM A2(1 TO 2) AS STRING * {}\n", m, m));
+    let ts = *rng.pick(&texts);
+    let tq = *rng.pick(&texts);
+    let ta = *rng.pick(&texts);
+    let tv = *rng.pick(&texts);
+    src.push_str(&format!("S = \"{}\"\nQ.Nm = \"{}\"\nA2(2) = \"{}\"\nV$ = \"{}\"\nR.Tag = 5\n", ts, tq, ta, tv));
+    // (source expression, its value)
+    let sources: Vec<(String, String)> = vec![
+        ("S".into(), fixk(ts, m)),
+        ("Q.Nm".into(), fixk(tq, m)),
+        ("A2(2)".into(), fixk(ta, m)),
+        ("A2(1)".into(), fixk("", m)),
+        ("V$".into(), tv.to_string()),
+        ("S + \"z\"".into(), format!("{}z", fixk(ts, m))),
+        ("V$ + Q.Nm".into(), format!("{}{}", tv, fixk(tq, m))),
+    ];
+    let targets = ["F", "R.Nm", "Arr(1)", "Arr(2)"];
+    let mut cur: Vec<String> = vec![fixk("", n); 4];
+    for _ in 0..rng.range(4, 9) {
+        let ti = rng.below(4) as usize;
+        let (se, sv) = rng.pick(&sources).clone();
+        src.push_str(&format!("{} = {}\n", targets[ti], se));
+        cur[ti] = fixk(&sv, n);
+        src.push_str("PRINT \"[\"; F; \"][\"; R.Nm; \"][\"; Arr(1); \"][\"; Arr(2); \"]\"; LEN(F); LEN(R.Nm); LEN(Arr(1)); LEN(Arr(2)); R.Tag\n");
+        expected.push_str(&format!("[{}][{}][{}][{}]{}{}{}{}{}\r\n", cur[0], cur[1], cur[2], cur[3],
+            int_text(n as i64), int_text(n as i64), int_text(n as i64), int_text(n as i64), int_text(5)));
+    }
+    // the sources are unchanged
+    src.push_str("PRINT \"[\"; S; \"][\"; Q.Nm; \"][\"; A2(2); \"]\"; LEN(S)\n");
+    expected.push_str(&format!("[{}][{}][{}]{}\r\n", fixk(ts, m), fixk(tq, m), fixk(ta, m), int_text(m as i64)));
+    Prog { src, expected_stdout: expected, expected_end: End::Ok, key: "fixed-string-sources-program".into() }
+}
+
 fn record_program(rng: &mut Rng) -> Prog {
     let mut src = String::new();
     let mut expected = String::new();
@@ -418,6 +471,8 @@ pub fn run(args: &Args) {
     for _ in 0..(n_prog / 3) {
         let p = fixed_string_program(&mut rng);
         run_prog(&p, &mut sum, &mut evaluations);
+        let p = fixed_string_sources_program(&mut rng);
+        run_prog(&p, &mut sum, &mut evaluations);
         let p = record_program(&mut rng);
         run_prog(&p, &mut sum, &mut evaluations);
     }
@@ -425,6 +480,6 @@ pub fn run(args: &Args) {
     sum.write(
         &args.out,
         evaluations,
-        "unit level: every shape of rank 1-2 with bounds in -2..2 (quick) / -2..3 (thorough), rank 3 sampled (quick) / exhaustive (thorough), random shapes with large lower bounds; for each shape abs_index on every tuple with components in lb-1..ub+1 (all in- and out-of-range tuples on and one beyond every face), a distinct value written through every in-bounds tuple and everything read back; fix_length on all strings over {a, blank, NUL} up to length 4/5 x all lengths. Program level: generated DIM/write/read/LBOUND/UBOUND programs over all five numeric element types with an out-of-range access in every second one, records with nested records and arrays of records with case-varied field names, STRING * n variables/fields/elements assigned directly and through a by-reference parameter; expected output computed by an independent reference in the harness. Non-trivial = shape with rank >= 2 and more than one element, string length differs from target, every program; distinct by text.",
+        "unit level: every shape of rank 1-2 with bounds in -2..2 (quick) / -2..3 (thorough), rank 3 sampled (quick) / exhaustive (thorough), random shapes with large lower bounds; for each shape abs_index on every tuple with components in lb-1..ub+1 (all in- and out-of-range tuples on and one beyond every face), a distinct value written through every in-bounds tuple and everything read back; fix_length on all strings over {a, blank, NUL} up to length 4/5 x all lengths. Program level: generated DIM/write/read/LBOUND/UBOUND programs over all five numeric element types with an out-of-range access in every second one, records with nested records and arrays of records with case-varied field names, STRING * n variables/fields/elements assigned from literals, through a by-reference parameter, and from fixed-length variables/fields/elements of another length, ordinary strings and concatenations; expected output computed by an independent reference in the harness. Non-trivial = shape with rank >= 2 and more than one element, string length differs from target, every program; distinct by text.",
     );
 }
